@@ -202,7 +202,7 @@ def impl_factor(cuqi, dim, kind, val):
 
 
 def run_factor(ctx, cuqi, r, thorough):
-    n_valid = 120 if not thorough else 2500
+    n_valid = 100 if not thorough else 2500
     n_invalid = 30 if not thorough else 300
     cases = []
     for t in range(n_valid):
